@@ -986,7 +986,8 @@ class Bada3FuelBurnModel(BaseFuelBurnModel):
                 )
             )
 
-            mass[0] = initial_mass
+            # shift the whole profile so that it stays consistent with its new start
+            mass += initial_mass - mass[0]
 
             final_mass_pct_change = (
                 np.abs(mass[-1] - old_final_mass) / old_final_mass
@@ -1104,7 +1105,8 @@ class Bada3FuelBurnModel(BaseFuelBurnModel):
                 )
             )
 
-            mass[0] = initial_mass
+            # shift the whole profile so that it stays consistent with its new start
+            mass += initial_mass - mass[0]
 
             final_mass_pct_change = (
                 np.abs(mass[-1] - old_final_mass) / old_final_mass
